@@ -422,3 +422,21 @@ def diff_obs(exp, got, path=""):
                 return d
         return None
     return None if same(exp, got) else f"{path}: expected {exp!r} got {got!r}"
+
+
+LAYOUTS = ["C", "C", "F", "T", "strided", "reversed"]
+
+
+def layout(mat, how):
+    """the same matrix (same values, same shape) in another memory layout"""
+    if how == "F":
+        return np.asfortranarray(mat)
+    if how == "T":                      # transposed view of the transposed copy
+        return np.ascontiguousarray(mat.T).T
+    if how == "strided":                # every second row / column of a larger buffer
+        big = np.zeros((2 * mat.shape[0] + 1, 2 * mat.shape[1] + 1), dtype=mat.dtype)
+        big[1::2, 1::2] = mat
+        return big[1::2, 1::2]
+    if how == "reversed":
+        return np.ascontiguousarray(mat[::-1, ::-1])[::-1, ::-1]
+    return mat
